@@ -25,9 +25,9 @@ ASSUMPTIONS = [
     "fractions.Fraction and decimal.Decimal are exact",
     "msdparser tokenizes '#KEY:value;' texts without the excluded metacharacters correctly",
 ]
-MONITORS = ["tick_text", "construct", "inexact", "arith", "history", "beatvalues", "beatvalues_inplace_edit", "timing_string", "timingdata"]
+MONITORS = ["tick_text", "construct", "inexact", "arith", "history", "beatvalues", "beatvalues_inplace_edit", "beatvalues_slice", "timing_string", "timingdata"]
 REQUIRED = ["two_events_on_one_beat", "arith_mixed_int", "arith_mixed_fraction", "inexact_half_tick_boundary", "timing_string_linebreaks",
-            "rows_not_in_beat_order_timing_string", "rows_not_in_beat_order_timingdata"]
+            "rows_not_in_beat_order_timing_string", "rows_not_in_beat_order_timingdata", "inexact_value_of_a_subclass"]
 
 TICK_LIMIT = 96000
 
@@ -219,16 +219,28 @@ def check(ctx, case):
         ctx.begin(case)
         ctx.mon("inexact")
         ctx.feat("inexact_" + form)
+        # every third value arrives as an instance of a subclass (a float subclass such as the library's own SongTime,
+        # a Decimal or str subclass): still a float, a decimal, a decimal string
+        from ..core import digest64
+
+        sub = digest64([form, v]) % 3 == 0
+        if sub:
+            ctx.feat("inexact_value_of_a_subclass")
         if form.startswith("float"):
             x = float(v)
             exact = Fraction(x)
+            if sub:
+                from simfile.timing.engine import SongTime
+
+                x = SongTime(x) if digest64(v) % 2 else type("MyFloat", (float,), {})(x)
             b = Beat(x)
         elif form == "decimal":
             exact = Fraction(Decimal(v))
-            b = Beat(Decimal(v))
+            b = Beat(type("MyDecimal", (Decimal,), {})(v) if sub else Decimal(v))
         else:
             exact = Fraction(Decimal(v))
-            b = Beat(v) if ctx.evaluations % 2 else Beat.from_str(v)
+            sv = type("MyStr", (str,), {})(v) if sub else v
+            b = Beat(sv) if ctx.evaluations % 2 else Beat.from_str(sv)
         if "boundary" in form:
             ctx.feat("inexact_half_tick_boundary")
         fb = Fraction(b.numerator, b.denominator)
@@ -293,6 +305,20 @@ def check(ctx, case):
                     ok = False
         ctx.expect(ok and back == bv, "beatvalues:roundtrip", text=text, back=repr(back))
         ctx.expect(str(back) == text, "beatvalues:restringify", text=text, again=str(back))
+        # a part of the list (a slice, a copy, a concatenation) is again a list of timing events: written out and
+        # parsed back it is unchanged
+        if len(bv) >= 2:
+            ctx.mon("beatvalues_slice")
+            for label, part, want in (("[1:]", bv[1:], list(bv)[1:]), ("[:-1]", bv[:-1], list(bv)[:-1]), ("[::2]", bv[::2], list(bv)[::2]),
+                                      ("copy()", bv.copy(), list(bv)), ("+", bv[:1] + bv[1:], list(bv))):
+                try:
+                    ok2 = list(BeatValues.from_str(str(part))) == want and list(part) == want
+                except Exception as e:
+                    ok2 = False
+                    part = repr(e)
+                if not ok2:
+                    ctx.violation(f"beatvalues:slice{label}:does-not-write-out-as-timing-events", {"type": type(part).__name__, "text": str(part)[:200]})
+                    break
         # the same list object edited in place after it has been written once: the text must follow
         import random as _r
 
